@@ -69,7 +69,7 @@ def describe(c):
 
 
 def run(ctx, fa, own):
-    n = 1200 if ctx.quick() else 12000
+    n = 2000 if ctx.quick() else 14000
     cases = make_cases(ctx, fa, n)
     ctx.rule = ("seeded generator: schemas over all eight primitives, records, enums, fixed, arrays, maps, unions, by-name and recursive "
                 "references, namespaces (raw or pre-parsed); 1-3 data per schema written back to back; boundary pools for ints, floats, strings, "
